@@ -27,6 +27,10 @@ def payload(t, variant):
     return t[0] == 'f' and t[1][0] == 'dc' and t[1][2] == variant and t[1][1] == ('param', 1)
 
 
+def plain_template():
+    return ["('const', ('text', 'b\"\\\\xc0\\\\x00\"'))"]
+
+
 def run(fx, rep):
     # the round-trip clause imports the exported document with to_value(serde_json::Value): the serializer's shape table for the
     # JSON-native kinds (null, bool, numbers, string, sequence, map with string keys) and the store-every-entry effects are C17 R1
@@ -157,8 +161,14 @@ def run(fx, rep):
                         else:
                             parts.append('? ' + F.term_str(e)[:40])
             arms[tuple(parts)] = tmpl
-    other = sorted({F.norm_callee(t) or '?' for bi, t in kb.calls() if (F.norm_callee(t) or '') not in ('std::fmt::Arguments::new', 'core::fmt::rt::Argument::new_display', 'std::fmt::Formatter::write_fmt')})
-    plain = ["('const', ('text', 'b\"\\\\xc0\\\\x00\"'))"]
+    for bi, t in kb.calls():
+        # the same thing spelled Display::fmt(payload, f)
+        if F.norm_callee(t) == 'std::fmt::Display::fmt' and len(t['args']) == 2:
+            for x in kpv.of_operand(t['args'][0]):
+                if x[0] == 'f' and x[1][0] == 'dc' and x[1][1] == ('param', 1) and all(y == ('param', 2) for y in kpv.of_operand(t['args'][1])):
+                    arms[(x[1][2],)] = plain_template()
+    other = sorted({F.norm_callee(t) or '?' for bi, t in kb.calls() if (F.norm_callee(t) or '') not in ('std::fmt::Arguments::new', 'core::fmt::rt::Argument::new_display', 'std::fmt::Formatter::write_fmt', 'std::fmt::Display::fmt')})
+    plain = plain_template()
     okk = set(arms) == {('Int',), ('Uint',), ('Bool',), ('String',)} and all(v == plain for v in arms.values()) and not other
     rep.check(okk, 'R4', 'key-text/plain-display', kb.loc(), 'each variant: write!(f, "{}", payload)',
               'Display for Key renders %s%s: JSON member names are no longer the plain text of the key' % ({k: v for k, v in arms.items()}, (' and calls %s' % other) if other else ''))
